@@ -22,7 +22,7 @@ from pyvc.loops import while_invariant
 import wntr.sim.hydraulics as hyd
 from wntr.sim.core import WNTRSimulator
 
-P = ["C04", "C05", "C06", "C10", "C16"]     # C06: the tank min / max level controls are presolve controls - their partial step is taken here
+P = ["C04", "C05", "C06", "C10", "C16", "C08"]     # C06: the tank min / max level controls are presolve controls - their partial step is taken here
 K, R = 2, 2
 QN = "wntr.sim.core:WNTRSimulator._compute_next_timestep_and_run_presolve_controls_and_rules"
 RDO = z3.Function("rule_condition_true", z3.IntSort(), z3.IntSort(), z3.BoolSort())     # rule j at time t
